@@ -343,3 +343,94 @@ def _conjuncts(t):
             out.extend(_conjuncts(x))
         return out
     return [t]
+
+
+def member_form(term):
+    """`x in (A, B, ..)`, `x == A or x == B ..` (any nesting of `or`), or a
+    single `x == A`  ->  (x, {names of the enum constants}) ; None otherwise."""
+    if term is None:
+        return None
+    if term[0] == 'in' and tuple_items(term[2]) is not None:
+        names = {enum_name(x) for x in tuple_items(term[2])}
+        if None in names:
+            return None
+        return term[1], names
+    if term[0] == 'eq':
+        for x, y in ((term[1], term[2]), (term[2], term[1])):
+            if enum_name(y) is not None:
+                return x, {enum_name(y)}
+        return None
+    if term[0] == 'or' and len(term) == 2 and isinstance(term[1], tuple):
+        subj = None
+        names = set()
+        for t in term[1]:
+            mf = member_form(t)
+            if mf is None:
+                return None
+            if subj is not None and show0(subj) != show0(mf[0]):
+                return None
+            subj = mf[0]
+            names |= mf[1]
+        return (subj, names) if subj is not None else None
+    return None
+
+
+def _get_call_on(term, table_name):
+    return isinstance(term, tuple) and len(term) >= 3 and \
+        term[0] == 'call' and isinstance(term[1], str) and \
+        term[1].endswith('.get') and isinstance(term[2], tuple) and \
+        term[2] and table_name in show0(term[2][0])
+
+
+def lookup_miss_paths(paths, table_name):
+    """Paths on which a lookup in the named table found nothing: the
+    KeyError handler of `table[key]`, or the `is None` branch of
+    `table.get(key)`."""
+    out = []
+    for p in paths:
+        hit = any(e.kind == 'catch' and 'KeyError' in e.names
+                  for e in p.events)
+        for e in p.events:
+            if e.kind != 'assume':
+                continue
+            c, pos = (e.cond[1], False) if e.cond[0] == 'not' \
+                else (e.cond, True)
+            if c[0] == 'is' and T.NONE in (c[1], c[2]):
+                other = c[2] if c[1] == T.NONE else c[1]
+                if _get_call_on(other, table_name) and pos:
+                    hit = True
+            if c[0] == 'truth' and _get_call_on(c[1], table_name) and \
+                    not pos:
+                hit = True
+        if hit:
+            out.append(p)
+    return out
+
+
+def lookup_keys(paths, table_name):
+    """Shown keys with which the named table is consulted (subscript or
+    .get)."""
+    out = set()
+    for p in paths:
+        for e in p.events:
+            if e.kind == 'load' and table_name in show0(e.container):
+                out.add(show0(e.key))
+            if e.kind == 'call' and e.get('result') is not None and \
+                    _get_call_on(e.result, table_name) and \
+                    len(e.result[2]) >= 2:
+                out.add(show0(e.result[2][1]))
+            for k in ('cond', 'value'):
+                v = e.get(k)
+                for t in _subterms(v):
+                    if _get_call_on(t, table_name) and len(t[2]) >= 2:
+                        out.add(show0(t[2][1]))
+    return out
+
+
+def _subterms(t, depth=0):
+    if isinstance(t, tuple) and depth < 8:
+        yield t
+        for x in t:
+            if isinstance(x, tuple):
+                for y in _subterms(x, depth + 1):
+                    yield y
